@@ -405,6 +405,14 @@ def gen_value(I: Impl, rng, var: dict, cls: str, maxlen=40, big=False):
     return gen_bytes_field(rng, var, cls, maxlen, big)
 
 
+def extra_classes(rng):
+    """Extra header bytes: empty, short incompressible, zero runs (which cost two bytes on a zero-coded wire however
+    long), alternating 00 xx (which doubles), maximal length."""
+    return [b"", bytes([7, 9, 11]), bytes(8), bytes(24), bytes(100), bytes(255),
+            bytes(0 if i % 2 == 0 else rng.randrange(1, 256) for i in range(24)),
+            bytes(rng.randrange(1, 256) for _ in range(255)), bytes(0 if i % 2 == 0 else 9 for i in range(255))]
+
+
 def gen_header(rng, rich=True):
     flags = rng.choice([0, 0x80, 0x40, 0x20, 0x10, 0x90, 0xC0, 0x60, 0xF0, 0xB0, 0x50, 0x30, 0xA0, 0xD0, 0xE0, 0x70])
     pid = rng.choice([1, 0, 0xFFFFFFFF, 0x80000000, 255, 256, rng.getrandbits(32)])
@@ -413,7 +421,8 @@ def gen_header(rng, rich=True):
         n = rng.choice([0, 1, 1, 2, 3, 3, 7] + ([255] if rich and rng.random() < 0.1 else []))
         acks = [rng.choice([0, 1, 0xFFFFFFFF, rng.getrandbits(32)]) for _ in range(n)]
     c = rng.randrange(8)
-    extra = b"" if c < 4 else b"\x00" if c == 4 else bytes(rng.randrange(256) for _ in range(4)) if c < 7 else \
+    extra = b"" if c < 4 else b"\x00" if c == 4 else bytes(rng.randrange(256) for _ in range(4)) if c < 6 else \
+        rng.choice(extra_classes(rng)[:5 if not rich else 9]) if c == 6 else \
         (bytes(rng.choice([0, 0, 255, 7]) for _ in range(255 if rich and rng.random() < 0.2 else 9)))
     return {"flags": flags, "pid": pid, "acks": acks, "extra": extra}
 
@@ -586,7 +595,7 @@ def mini_universe(chk: Check, pa, maxvar, maxcount):
                     elif tv["k"] == "raw" and v["t"] == "Variable":
                         bump("variable-payload-len:%d" % len(tv["b"]))
     chk.cov["mini_rows_by_class"] = dict(sorted(cls.items()))
-    for need in ["variable-payload-len:%d" % n for n in ZERO_RUNS] + ["part:runs"]:
+    for need in ["variable-payload-len:%d" % n for n in ZERO_RUNS] + ["part:runs", "part:zext", "extra:24", "extra:255"]:
         if need not in cls:
             raise MachineryError("vacuous model: no table row of class %s" % need)
     for need in ("part:hdr", "part:body", "part:fill", "zero-coded", "plain", "acks:0", "acks:2", "extra:0", "extra:2",
@@ -928,7 +937,7 @@ def inst_size(shape_block):
                for v in shape_block["vars"])
 
 
-def real_templates(chk: Check, per_template, n_fill, n_big, zero_rounds=1):
+def real_templates(chk: Check, per_template, n_fill, n_big, zero_rounds=1, header_rounds=1):
     I = impl()
     rng = chk.rng
     ser, des, _ = I.codec(None, False)
@@ -957,12 +966,45 @@ def real_templates(chk: Check, per_template, n_fill, n_big, zero_rounds=1):
     for shape, tmpl in small_var[:n_big]:
         hdr, bp, ty, eq = gen_message(I, rng, shape, tmpl, counts=(255,), maxlen=2, hdr=gen_header(rng, rich=False))
         add(shape, tmpl, hdr, bp, ty, eq, False, "count-255")
-    with_var1 = [(s, t) for s, t in pairs if any(v["t"] == "Variable" for b in s["blocks"] for v in b["vars"])
+    with_var1 = [(s, t) for s, t in pairs if any(v["t"] == "Variable" and v["size"] == 1 for b in s["blocks"] for v in b["vars"])
                  and sum(len(b["vars"]) for b in s["blocks"]) <= 12]
     rng.shuffle(with_var1)
-    for shape, tmpl in with_var1[:n_big]:
-        hdr, bp, ty, eq = gen_message(I, rng, shape, tmpl, counts=(1,), maxlen=300, big=True, hdr=gen_header(rng, rich=False))
+    for k, (shape, tmpl) in enumerate(with_var1[:n_big]):
+        # one one-byte-length field holds exactly the 255 bytes its prefix can describe (bytes not ending in NUL, or
+        # 254 characters of text plus the terminator), the other fields are long at random
+        site = rng.choice([(bi, vi) for bi, b in enumerate(shape["blocks"]) for vi, v in enumerate(b["vars"])
+                           if v["t"] == "Variable" and v["size"] == 1])
+        cls = var_class(I, tmpl.blocks[site[0]].variables[site[1]])
+        val = bytes(rng.randrange(256) for _ in range(254)) + bytes([rng.randrange(1, 256)])
+        if k % 3 == 2 and cls != "binary":
+            val = "".join(rng.choice("abcxyz 09") for _ in range(254))
+        hdr, bp, ty, eq = gen_message(I, rng, shape, tmpl, counts=(1,), maxlen=300, big=True, hdr=gen_header(rng, rich=False), force={site: val})
         add(shape, tmpl, hdr, bp, ty, eq, False, "var-maxlen")
+    # header product: zero-coding x ack trailer with 0..n IDs x every class of extra bytes x small / large bodies, so that
+    # the datagram is shorter than, about, or longer than 7 + len(extra)
+    small = [p for p in pairs if sum(inst_size(b) * (b["n"] or 1) for b in p[0]["blocks"]) <= 8
+             and all(v["t"] not in ("Variable",) for b in p[0]["blocks"] for v in b["vars"])
+             and all(b["kind"] != "Variable" for b in p[0]["blocks"])]
+    large = [p for p in pairs if 60 <= sum(inst_size(b) * (b["n"] or 1) for b in p[0]["blocks"]) <= 300]
+    if len(small) < 5 or len(large) < 5:
+        raise MachineryError("header product: %d small / %d large templates" % (len(small), len(large)))
+    combos = [(0x90, 0), (0x90, 1), (0x90, 3), (0x80, 0), (0x10, 1)] + ([(0xD0, 2), (0xB0, 7), (0x10, 0), (0x10, 3)] if header_rounds > 1 else [])
+    sizes = {"below": 0, "at-or-above": 0}
+    for _ in range(header_rounds):
+        for flags, nack in combos:
+            for extra in extra_classes(rng):
+                for cls, pool in (("small", small), ("large", large)):
+                    shape, tmpl = rng.choice(pool)
+                    hdr = {"flags": flags, "pid": rng.choice([1, 0xFFFFFFFF, rng.getrandbits(32)]),
+                           "acks": [rng.choice([0, 1, rng.getrandbits(32)]) for _ in range(nack)], "extra": extra}
+                    hdrx, bp, ty, eq = gen_message(I, rng, shape, tmpl, counts=(1,), maxlen=6, hdr=hdr)
+                    add(shape, tmpl, hdrx, bp, ty, eq, False, "hdr-%02x-acks%d-extra%d-%s" % (flags, nack, len(extra), cls))
+                    d = events[-1]["enc"]["d"]
+                    if d and flags & 0x80:
+                        sizes["below" if len(d) - (4 * nack + 1 if flags & 0x10 else 0) < 7 + len(extra) else "at-or-above"] += 1
+    chk.cov["zero_coded_datagram_size_vs_7_plus_extra"] = sizes
+    if not chk.violations and not (sizes["below"] and sizes["at-or-above"]):
+        raise MachineryError("vacuous run: header product has no zero-coded datagram below / above 7 + len(extra)")
     # zero runs around the 255 boundaries of zero-coding, zero-coded, at the start / in the middle / at the end of a
     # payload (and of the body when the field is its last), plus the extra header bytes as a run right behind the number
     sites = zero_run_sites(pairs)
@@ -1016,5 +1058,5 @@ def run(chk: Check):
         mini_universe(chk, "{0, 65, 255}", 3, 2)
         instance_histories_mini(chk, 4)
         instance_walks_real(chk, 600, 16)
-        real_templates(chk, 40, 600, 60, zero_rounds=6)
+        real_templates(chk, 40, 600, 60, zero_rounds=6, header_rounds=5)
     chk.cov["exhaustive"] = True
